@@ -82,6 +82,12 @@ def plan(ctx, per_disease_quick, per_disease_thorough, small=True):
             cfgs.append(P.gen_cfg(ctx.rng, d, demog=bool(i % 2), small=small))
     for a, b in [('sir', 'sis'), ('hiv', 'syphilis'), ('measles', 'sir')][:ctx.budget(2, 3)]:
         cfgs.append(P.gen_cfg(ctx.rng, a, demog=True, second=b, small=small))
+    # vertical transmission (syphilis congenital outcomes are rare): one larger, high-fertility, high-prevalence run
+    for i in range(ctx.budget(1, 4)):
+        cfgs.append(dict(n_agents=250, rand_seed=ctx.rng.randint(0, 10_000), unit='year', dt=1.0, start=2000, dur=30,
+                         diseases=[dict(type='syphilis', beta=0.9, init_prev=0.5)],
+                         networks=[dict(type='random', n_contacts=4, dur=0), dict(type='maternal')],
+                         demographics=[dict(type='pregnancy', fertility_rate=300, burnin=True), dict(type='deaths', death_rate=20)]))
     return cfgs
 
 
@@ -118,6 +124,8 @@ def correspond(ctx):
     frame = dict(checked=0, violations=[])
     unknown_atoms = {}
     state = dict(cfg=None, last={})
+    atom_seen = {}
+    ti_now = {}     # disease -> [infections recorded at the current step, recorded at another time]
 
     def on_call(call):
         n = call.name
@@ -156,6 +164,10 @@ def correspond(ctx):
             v = uid_arg & ~bd['susceptible']
             if v.any():
                 hyp_viol.setdefault((n, 'infect-only-susceptible'), dict(n=0, ti=call.ti, uid=int(au[np.flatnonzero(v)[0]]), cfg=state['cfg']))['n'] += int(v.sum())
+        if call.method == 'set_prognoses' and uid_arg is not None and uid_arg.any():
+            tinf = np.asarray(call.disease.ti_infected.raw[au[uid_arg]], dtype=float)
+            c = ti_now.setdefault(n, [0, 0])
+            c[0] += int((tinf == call.ti).sum()); c[1] += int((tinf != call.ti).sum())
         for hname, fn in HYPOTHESES.get((n, call.method), []):
             try:
                 v = fn(bd, G)
@@ -178,6 +190,11 @@ def correspond(ctx):
             e = slot.setdefault(a, [0, dict(ti=call.ti, uid=int(au[i]), cfg=state['cfg'])])
             e[0] += int(c)
         for j, a in enumerate(atoms):
+            sv = atom_seen.setdefault(f'{n}.{call.method}.{a["field"]}', set())
+            kn = known[:, j]
+            if kn.any():
+                if vals[kn, j].any(): sv.add(1)
+                if (~vals[kn, j]).any(): sv.add(0)
             if not known[:, j].all():
                 unknown_atoms[(n, call.method, a['field'])] = unknown_atoms.get((n, call.method, a['field']), 0) + int((~known[:, j]).sum())
 
@@ -230,6 +247,12 @@ def correspond(ctx):
         ctx.broke('correspondence', f'C13.hypothesis.{hname}',
                   f'{n}: the hypothesis `{hname}` used by the theorems failed on {v["n"]} observed agent-step(s) (first: ti={v["ti"]} uid={v["uid"]})',
                   data=dict(cfg=v['cfg'], ti=v['ti'], uid=v['uid']))
+    for n, (now, other) in ti_now.items():   # the regenerated fact `infectionTimeIsNow` against the live arrays
+        fact = facts[n].get('infection_time_is_now')
+        if (fact and other) or (fact is False and now and not other):
+            ctx.broke('correspondence', f'C13.infection-time.{n}',
+                      f'{n}: generated infectionTimeIsNow={fact} but after set_prognoses {now} infections carry ti_infected == ti and {other} do not')
+    ctx.notes['infection_time_observed'] = {n: dict(now=v[0], other=v[1], generated_fact=facts[n].get('infection_time_is_now')) for n, v in ti_now.items()}
     for fv in frame['violations']:
         ctx.broke('correspondence', 'C13.frame',
                   f'{fv["disease"]}: flags of uid {fv["uid"]} changed outside step_state/set_prognoses/step_die before {fv["before_method"]} at ti={fv["ti"]}: {fv["was"]} -> {fv["now"]}',
@@ -238,6 +261,7 @@ def correspond(ctx):
     ctx.notes['frame_agent_checks'] = frame['checked']
     ctx.notes['unobserved_guard_atoms'] = {f'{n}.{m}.{f}': c for (n, m, f), c in unknown_atoms.items()}
     ctx.notes['distinct_model_lines'] = len(lines)
+    ctx.notes['guard_atoms_seen_values'] = {k: sorted(v) for k, v in sorted(atom_seen.items())}
 
 
 # ---------------------------------------------------------------------------
